@@ -5,7 +5,10 @@ Text.from_markup and _emoji_replace, in-process.  `Style.normalize` is a paramet
 (argument -> result) pairs the real `render` used are recorded and handed to the model, which
 answers a NUL-marked string for any name the real code did not normalize (so a tokenizer
 disagreement can never hide behind the table).  The emoji table is data: the harness hands the
-model the `:name:` candidates of the input that rich/_emoji_codes.py knows.
+model the `:name:` candidates of the input that rich/_emoji_codes.py knows.  The console glue
+(Console.render_str and Console.print of strings, highlighting off: which of markup / emoji is
+interpreted for every combination of console defaults and arguments) is compared the same way
+(driver entries mk_render_str, mk_print).
 
 Direct evaluation (3d): an independent reference interpreter of the markup semantics
 (lib_markup.o_render: hand scanner, open-tag list, vocabulary-based normalize) is compared with
@@ -458,7 +461,7 @@ def run(ctx):
         "which RE_TAGS can match go to the model, all go through the direct evaluation) + %d seeded random strings of length 6..24 "
         "+ %d seeded tag-grammar documents (nested/overlapping/implicit closes, 15 tag names x spellings x parameters, escaped leaves, 20%% malformed) "
         "+ structured strings (2-7 bracketed bodies of length <= 12 over the tag class, its neighbours, line feed, brackets, backslash, '=', blanks; "
-        "0-7 backslashes in front; failing closes behind 2-9 backslashes) + Console.render_str / Console.print on all strings <= 3 x 36 flag combinations and seeded lists of 1-3 strings; "
+        "0-7 backslashes in front; failing closes behind 2-9 backslashes) + Console.render_str / Console.print on all strings <= 3 over the 12 symbols (all 36 flag combinations up to length 2, 6 seeded ones of the 36 at length 3) and seeded lists of 1-3 strings; "
         "distinct = distinct canonical request lines (exhaustive shards enumerate distinct strings by construction)"
         % (maxlen, L.ALPHA, maxlen2, L.ALPHA2, nstr, full_upto, n_rand, n_docs)
     )
@@ -505,6 +508,9 @@ MANIFEST = {
     "Parameters, not verified: Style.normalize (recorded from the real call and replayed by the model; its contract is checked by the "
     "oracle on a 15-name vocabulary), the EMOJI table (data handed to the model per request), str.isspace (compared on code points). "
     "Console glue is modelled with highlighting off, no console-level style and justify=None; style/justify/overflow pass-through is "
-    "checked directly, not modelled. Since the F8 repair no failure is ever classified as a known finding.",
+    "checked directly, not modelled. Code variant flag: SORT_SPANS = 0 (the repaired span order of fix 623ba68, what /repo contains; "
+    "1 = rich 9.10.0 as found, `text.spans = sorted(spans)`, env VERIF_C04_SORT_SPANS). No known finding is open for this property: "
+    "with SORT_SPANS = 0 no failure is ever classified as a known finding and no KNOWN-FINDING line is printed (only with "
+    "SORT_SPANS = 1 are span-order failures classified as `markup-same-start-precedence`, F8).",
     "design_ref": "DESIGN.md section 7, C04; section 8, F8",
 }
